@@ -210,6 +210,7 @@ class TranslatorNP(Translator2):
         h = self._helper(node)
         if h is not None and not self._has_rule(node):
             fnode, _src = source_ast(h)
+            _norm_kw(fnode)
             body = self._body_of(fnode)
             if len(body) == 1 and isinstance(body[0], ast.Return) and body[0].value is not None:
                 return self.expr(body[0].value, self._callee_scope(fnode, node, scope))
@@ -539,6 +540,7 @@ class TranslatorNP(Translator2):
         """`target = helper(args)`: the helper's body in place; `return E` goes on with `target = E` and the rest of the
         caller, `raise` raises in the caller"""
         fnode, _src = source_ast(h)
+        _norm_kw(fnode)
         body = self._body_of(fnode)
 
         def ret_in_loop(sts, inside):
